@@ -120,6 +120,9 @@ func verifC16WaitTimeoutReal() {
 	mu := new(sync.Mutex)
 	c := sync.NewCond(mu)
 	t := verifNondetU64("timeout")
+	if verifNative() && t > 50 {
+		t = 50 // replay: keep the native wait short
+	}
 	scenario := verifChoose(3)
 	if scenario == 1 { // an earlier waiter on the same condition variable
 		go func() {
